@@ -5,7 +5,7 @@ TECHNIQUE = 'static analysis: per-variant payload-field coverage of Hash::hash v
 EXPLANATION = ('For every ScalarValue variant, the payload fields read by `impl Hash for ScalarValue` are a subset of the payload fields '
                'read by `impl PartialEq for ScalarValue` (a component that is hashed but not compared makes equal scalars hash '
                'differently), every variant that eq handles is handled by hash, and the float variants go through bit normalisation '
-               '(to_bits) on both sides. The other four clauses of C34 (array round trips, casts, ordering) are value-level and not decided.')
+               '(to_bits / to_ne_bytes / total_cmp) on both sides. The other four clauses of C34 (array round trips, casts, ordering) are value-level and not decided.')
 ASSUMPTIONS = ['pattern bindings are the only way the two impls read payload fields (no accessor indirection)']
 
 SV = 'datafusion_common::scalar::ScalarValue'
@@ -91,11 +91,11 @@ def run(ctx):
     # float normalisation on both sides
     for fn, label in ((HASH, 'hash'), (EQ, 'eq')):
         tree = f.call_tree(fn, depth=2)
-        uses = any(c.endswith('::to_bits') for d in tree for c in f.callees.get(d, []))
+        uses = any(c.endswith(('::to_bits', '::to_ne_bytes', '::total_cmp')) for d in tree for c in f.callees.get(d, []))
         if uses:
             ctx.ok('float-bit-normalisation', label)
         else:
-            ctx.fail('float-bit-normalisation', label, ctx.loc(f.fn(fn)) if f.fn(fn) else fn, 'float payloads are not compared/hashed through to_bits in %s' % label, key='float-bit-normalisation|' + label)
+            ctx.fail('float-bit-normalisation', label, ctx.loc(f.fn(fn)) if f.fn(fn) else fn, 'float payloads are not compared/hashed through their bit pattern (to_bits / to_ne_bytes / total_cmp) in %s' % label, key='float-bit-normalisation|' + label)
     import common
     st = ctx.st
     probe = common.Ctx(ctx.pid, ctx.tier, st, st, {})
